@@ -28,10 +28,12 @@ EXTENDS CertStore, CertStoreLin
 
 CONSTANTS Readers,            \* reader processes; reader r owns subscription r
           MaxOps,             \* operations per reader
-          AtomicPT, AtomicPut, NotifyAfterStore, AtomicSubscribe
+          AtomicPT, AtomicPut, NotifyAfterStore, AtomicSubscribe,
+          DrainThenSend       \* TRUE = the code: inside its critical section Put first drains each subscriber channel, then sends;
+                              \* the channels are read without the store's lock, so a receiver can find one transiently empty
 
 VARIABLES started, completed, \* the two counters the driver keeps (atomics bumped by the writer)
-          wpc, wcert,         \* writer: "idle" | "called" | "half" (split Put) | "applied"; the certificate in flight
+          wpc, wcert,         \* writer: "idle" | "called" | "half" (split Put) | "drained" | "applied"; the certificate in flight
           rd                  \* reader -> [pc, op, lo, at, tmp, res, wit, seenpos, nops]
 cvars == <<dvars, started, completed, wpc, wcert, rd>>
 
@@ -59,9 +61,20 @@ WCall(c) ==
 NotifyAll(c) == [s \in DOMAIN subs |-> <<c.id>>]
 \* the code: one critical section
 WApplyAtomic ==
-  /\ wpc = "called" /\ AtomicPut /\ NotifyAfterStore
+  /\ wpc = "called" /\ AtomicPut /\ NotifyAfterStore /\ ~DrainThenSend
   /\ Put(wcert) /\ wpc' = "applied"
   /\ UNCHANGED <<started, completed, wcert, rd>>
+\* ... as lock-free receivers see it: datastore writes, swap and drain, then the send
+WApplyDrain ==
+  /\ wpc = "called" /\ AtomicPut /\ NotifyAfterStore /\ DrainThenSend /\ ~PutBlocks
+  /\ LET st == PutF(Mem, wcert) IN ds' = st.d /\ mlatest' = st.ml /\ mpt' = st.pt
+  /\ subs' = IF PutVerdict(Mem, wcert) = "ok" THEN [s \in DOMAIN subs |-> <<>>] ELSE subs
+  /\ alts' = {APut(a, wcert) : a \in alts} /\ wpc' = "drained" /\ wiped' = FALSE
+  /\ UNCHANGED <<up, mfirst, freq, lastop, seen, started, completed, wcert, rd>>
+WSend ==
+  /\ wpc = "drained"
+  /\ subs' = NotifyAll(wcert) /\ wpc' = "applied" /\ wiped' = FALSE
+  /\ UNCHANGED <<ds, up, mfirst, mlatest, mpt, freq, alts, lastop, seen, started, completed, wcert, rd>>
 \* deviation: the subscribers are told first, the certificate is stored and published in a later step
 WNotifyFirst ==
   /\ wpc = "called" /\ ~NotifyAfterStore /\ PutVerdict(Mem, wcert) = "ok"
@@ -85,7 +98,7 @@ WPublishTable ==
 WReturn ==
   /\ wpc = "applied" /\ wpc' = "idle" /\ completed' = completed + 1 /\ wcert' = NoCert
   /\ UNCHANGED <<dvars, started, rd>>
-WStep == WApplyAtomic \/ WNotifyFirst \/ WStoreAfterNotify \/ WPublishCert \/ WPublishTable \/ WReturn
+WStep == WApplyAtomic \/ WApplyDrain \/ WSend \/ WNotifyFirst \/ WStoreAfterNotify \/ WPublishCert \/ WPublishTable \/ WReturn
 
 \* ------------------------------------------------------------------ readers
 \* the answers of the state functions, in the shape of a read record
